@@ -213,6 +213,7 @@ def run(F, rep, tier):
                     rep.ok("C09-R5", key + ":unproven")
     rep.floor("C09-R5", "hand-written loops in the parser", n_loops, 10)
     run_r7(F, rep)
+    run_r8(F, rep)
 
 
 def run_r7(F, rep):
@@ -295,3 +296,32 @@ def run_r7(F, rep):
                           n, render(mm[1])[:40], e, ",".join(sorted(handled)), wtxt[:40], q, e, "/".join(missing)),
                       "%s (mech_syntax.lib, expanded line %s)" % (n, wild[0][3]), sample={"fn": n, "sub_parser": q, "can_return": sorted(var.get(q, ())), "handled": sorted(handled)})
     rep.floor("C09-R7", "panicking catch-all arms on sub-parser results", n_sites, 4)
+
+
+def run_r8(F, rep):
+    """C09-R8: every error the parser builds is located in the input"""
+    from lib.facts import find, walk, is_node, path_of, render
+    rep.rule("C09-R8", "error ranges: every ParseError the parser constructs takes its cause_range from the input position (ParseError::new / an input-derived range), never "
+                       "SourceRange::default() (0:0, which lies outside every input and breaks the report renderer)")
+    n = 0
+    for it in F.syn("mech_syntax.lib"):
+        if it["k"] not in ("fn", "method") or not it.get("body") or "formatter" in (it.get("mod") or ""):
+            continue
+        per = 0
+        for s in find(it["body"], "struct"):
+            if s[1].split("::")[-1] != "ParseError":
+                continue
+            n += 1
+            for fname, fval in s[2]:
+                if fname == "cause_range":
+                    txt = render(fval).replace(" ", "")
+                    per += 1
+                    bad = "SourceRange::default()" in txt or "Default::default()" in txt
+                    rep.check(not bad, "C09-R8", "%s:cause_range#%d" % (it["name"], per),
+                              "%s() builds a ParseError with cause_range = %s: if it reaches the report, the reported range 0:0 lies outside the input" % (it["name"], txt[:40]),
+                              "%s (mech_syntax.lib, expanded line %s)" % (it["name"], it.get("line")), sample={"fn": it["name"], "cause_range": txt[:60]})
+        located = sum(1 for c in find(it["body"], "call") if (path_of(c[1]) or "").endswith("ParseError::new"))
+        if located:
+            n += located
+            rep.ok("C09-R8", "%s:ParseError::new" % it["name"], sample={"fn": it["name"], "located_constructions": located})
+    rep.floor("C09-R8", "ParseError constructions examined (struct literals and ParseError::new calls)", n, 20)
